@@ -1,6 +1,9 @@
 ------------------------------ MODULE AckQueue ------------------------------
 (* The in-flight table (wasp/ack/queue.go + wasp/expiration) as C04 sees it.        *)
-(*   entries : (session, id) -> [expect, d, tag]   exchanges awaiting a packet       *)
+(*   entries : (session, id, direction) -> [expect, d, tag]   exchanges awaiting a   *)
+(*             packet; client and broker choose packet identifiers independently, so *)
+(*             an exchange opened by the client (PUBREC stored, PUBREL awaited) and  *)
+(*             one opened by the broker may carry the same identifier                 *)
 (*   outcome : tag -> "acked" | "expired"          history: how each one ended       *)
 (* One action per call of the Queue interface.  Times are milliseconds.             *)
 (* Sweep window ("deadlines are honoured to the second"): a sweep at time now MUST  *)
@@ -18,11 +21,15 @@ AckTypes == {"PUBACK", "PUBREC", "PUBREL", "PUBCOMP"}
 Expect(kind) == CASE kind = "pub1" -> "PUBACK" [] kind = "pub2" -> "PUBREC"
                   [] kind = "pubrec" -> "PUBREL" [] kind = "pubrel" -> "PUBCOMP"
 Dom(f) == DOMAIN f
+DirOfKind(kind) == IF kind = "pubrec" THEN "in" ELSE "out"        \* which side opened the exchange
+DirOfAck(ty)    == IF ty = "PUBREL" THEN "in" ELSE "out"          \* which exchange a received packet addresses
+FK(k, kind)     == <<k[1], k[2], DirOfKind(kind)>>
+AK(k, ty)       == <<k[1], k[2], DirOfAck(ty)>>
 \* ---- transition relation on an explicit table
 Registrable(k, kind) == k[2] # 0 /\ kind \in Kinds            \* id 0 and QoS 0 are refused
-InsertOK(en, k, kind) == Registrable(k, kind) /\ k \notin Dom(en)
-InsertNew(en, k, kind, d, tag) == (k :> [expect |-> Expect(kind), d |-> d, tag |-> tag]) @@ en
-AckOK(en, k, ty) == k \in Dom(en) /\ en[k].expect = ty
+InsertOK(en, k, kind) == Registrable(k, kind) /\ FK(k, kind) \notin Dom(en)
+InsertNew(en, k, kind, d, tag) == (FK(k, kind) :> [expect |-> Expect(kind), d |-> d, tag |-> tag]) @@ en
+AckOK(en, k, ty) == AK(k, ty) \in Dom(en) /\ en[AK(k, ty)].expect = ty
 Drop(en, K) == [x \in Dom(en) \ K |-> en[x]]
 Must(en, now) == {k \in Dom(en) : now >= en[k].d + Sec}
 May(en, now)  == {k \in Dom(en) : now > en[k].d - Sec}
@@ -37,7 +44,7 @@ Insert(k, kind, d) ==
   /\ UNCHANGED outcome
 Ack(k, ty) ==
   /\ IF AckOK(entries, k, ty)
-     THEN entries' = Drop(entries, {k}) /\ outcome' = (entries[k].tag :> "acked") @@ outcome
+     THEN entries' = Drop(entries, {AK(k, ty)}) /\ outcome' = (entries[AK(k, ty)].tag :> "acked") @@ outcome
      ELSE UNCHANGED <<entries, outcome>>             \* unknown id or wrong type: nothing changes
   /\ UNCHANGED ntag
 Sweep(now, F) ==
